@@ -190,48 +190,66 @@ func init() {
 	})
 	// a fallback that cannot take the message (unknown name, terminated, itself full): the refusal must be reported
 	for _, how := range []string{"missing", "dead", "full"} {
-		how := how
-		c02Scenario("bounded1-fallback-"+how, c02opt{qb: 1, tb: 2}, func(w *World, sl *sendLog) bool {
-			g := &vsched.Gate{}
-			if how != "missing" {
-				w.Setup("spawnF", func() {
-					fr := &rec{name: "F"}
-					w.recs["F"] = fr
-					opts := gen.ProcessOptions{}
-					if how == "full" {
-						opts.MailboxSize = 1
-					}
-					pid, err := w.n.SpawnRegister("fb", func() gen.ProcessBehavior { return &probe{} }, opts, probeCfg{rec: fr, onMsg: func(p *probe, from gen.PID, m any) error {
-						if m == "park" {
-							g.Wait()
-						}
-						return nil
-					}})
-					if err != nil {
-						panic(err)
-					}
-					w.pids["F"] = pid
-				})
-				switch how {
-				case "dead":
-					w.Setup("killF", func() { w.n.Kill(w.pids["F"]) })
-				case "full":
-					w.Setup("parkF", func() { w.n.Send(w.pids["F"], "park") })
-					w.Setup("fillF", func() { w.n.Send(w.pids["F"], "fill") })
-				}
+		for _, addr := range []string{"pid", "name", "alias"} {
+			how, addr := how, addr
+			scn := "bounded1-fallback-" + how
+			if addr != "pid" {
+				scn += "-by-" + addr
 			}
-			pid := w.spawnProbe("R", probeCfg{onMsg: func(p *probe, from gen.PID, m any) error {
-				if m == "park" {
-					g.Wait()
+			c02Scenario(scn, c02opt{qb: 1, tb: 2}, func(w *World, sl *sendLog) bool {
+				g := &vsched.Gate{}
+				if how != "missing" {
+					w.Setup("spawnF", func() {
+						fr := &rec{name: "F"}
+						w.recs["F"] = fr
+						opts := gen.ProcessOptions{}
+						if how == "full" {
+							opts.MailboxSize = 1
+						}
+						pid, err := w.n.SpawnRegister("fb", func() gen.ProcessBehavior { return &probe{} }, opts, probeCfg{rec: fr, onMsg: func(p *probe, from gen.PID, m any) error {
+							if m == "park" {
+								g.Wait()
+							}
+							return nil
+						}})
+						if err != nil {
+							panic(err)
+						}
+						w.pids["F"] = pid
+					})
+					switch how {
+					case "dead":
+						w.Setup("killF", func() { w.n.Kill(w.pids["F"]) })
+					case "full":
+						w.Setup("parkF", func() { w.n.Send(w.pids["F"], "park") })
+						w.Setup("fillF", func() { w.n.Send(w.pids["F"], "fill") })
+					}
 				}
-				return nil
-			}}, gen.ProcessOptions{MailboxSize: 1, Fallback: gen.ProcessFallback{Enable: true, Name: "fb", Tag: "tag"}})
-			w.Setup("park", func() { w.n.Send(pid, "park") })
-			w.ex.Thread("S1", func() { sl.add("a1", w.n.Send(pid, "a1")); sl.add("a2", w.n.Send(pid, "a2")) })
-			w.ex.Thread("S2", func() { sl.add("b1", w.n.Send(pid, "b1")) })
-			w.ex.ThreadLow("G", func() { g.Open() })
-			return false
-		})
+				pid := w.spawnProbe("R", probeCfg{onMsg: func(p *probe, from gen.PID, m any) error {
+					if m == "park" {
+						g.Wait()
+					}
+					return nil
+				}}, gen.ProcessOptions{MailboxSize: 1, Fallback: gen.ProcessFallback{Enable: true, Name: "fb", Tag: "tag"}})
+				var to any = pid
+				switch addr {
+				case "name":
+					w.Do("R", func(p *probe) error { return p.RegisterName("rname") })
+					to = gen.Atom("rname")
+				case "alias":
+					w.Do("R", func(p *probe) error {
+						a, err := p.CreateAlias()
+						to = a
+						return err
+					})
+				}
+				w.Setup("park", func() { w.n.Send(pid, "park") })
+				w.ex.Thread("S1", func() { sl.add("a1", w.n.Send(to, "a1")); sl.add("a2", w.n.Send(to, "a2")) })
+				w.ex.Thread("S2", func() { sl.add("b1", w.n.Send(to, "b1")) })
+				w.ex.ThreadLow("G", func() { g.Open() })
+				return false
+			})
+		}
 	}
 	// fallback to its own name: the refusal must be reported
 	c02Scenario("bounded1-fallback-self", c02opt{qb: 1, tb: 2}, func(w *World, sl *sendLog) bool {
